@@ -17,6 +17,16 @@ CLAIMED = {
              "differential execution of the extracted model and the real VarInt API on boundary, exhaustive one-byte, truncation and random cases.",
         design="6/C15", technique="Coq proof (round-trip/bijection lemmas, byte sweeps lifted) + model-vs-crate differential execution",
         note="usize assumed 64-bit; slice read_exact modelled."),
+    "C16": dict(
+        text="Proof: NVIter::next / nv::write of src/protocol/nv.rs modelled in Gallina; proved for all byte strings and all pair lists: "
+             "round trip with nothing left over, exact byte count and shape of the encoding, rejection of components >= 2^31, no out-of-bounds "
+             "slice operation on any input, yielded pairs are consecutive sub-lists after a 2/5/8-byte header, fusedness and 'remainder is the "
+             "undecoded suffix', exact additive prefix law nv_run (a++b), size hint bound (12 theorems). Partial as to two clauses a list model "
+             "cannot express (address identity of the yielded slices; agreement of the &[u8] and &mut [u8] instantiations): these are asserted "
+             "inside the harness on every case. Tie: extracted model vs real iterator on exhaustive short strings over a boundary alphabet, "
+             "all prefixes of encodings, mutations, random bytes.",
+        design="6/C16", technique="Coq proof (induction on input length; additive prefix law) + differential execution; pointer-range assertions in harness",
+        note="usize assumed 64-bit; zero-copy and shared/mutable agreement are tested, not proved."),
 }
 
 PENDING = {}
